@@ -69,7 +69,7 @@ for _k in ("llist", "slist", "ht", "buf"):
 
 def gen(rng, tier, n):
     # thorough: longer sequences, but the per-op full dumps make the output quadratic in the
-    # length; 300 keeps a thorough run (10 k cases) under ~15 min and ~300 MB of driver output
+    # length; 300 keeps a thorough run (30 k cases) around 10 min
     maxops = 120 if tier == "quick" else 300
     kinds = sorted(KINDS)
     out = []
